@@ -482,6 +482,91 @@ def impl_call(f, *a, **kw):
 
 
 # ---------------------------------------------------------------- main entry
+# ---------------------------------------------------------------- environment modes of the correspondence
+# The theorems speak about the model; the correspondence ties the model to the library *as the interpreter runs
+# it*.  `python -O` strips assert statements (and `if __debug__:` blocks): a side effect hidden in an assert is
+# behaviour that differs between the two ways of running the same source.  The same correspondence pass (same
+# seed, same cases) is therefore run a second time in a child interpreter started with -O, concurrently with the
+# normal pass; its failing cases are merged into the verdict with mode='O' in the replay.
+MODES = [m for m in os.environ.get('VERIF_MODES', 'O').split(',') if m]
+
+
+def _run_harness(ctx, harness, tier, replay_cases=None):
+    """gen + evaluate under the wall-clock budget; returns (error-kind, traceback) or (None, None)"""
+    import signal, traceback
+
+    def _on_alarm(signum, frame):
+        raise HarnessTimeout()
+    old_handler = signal.signal(signal.SIGALRM, _on_alarm)
+    signal.setitimer(signal.ITIMER_REAL, HARNESS_BUDGET_S[tier])
+    try:
+        if replay_cases is not None:
+            cases = replay_cases
+        else:
+            cases = list(harness.corpus(ctx)) if hasattr(harness, 'corpus') else []
+            cases += list(harness.gen(ctx))
+        harness.evaluate(ctx, cases)
+        return None, None
+    except HarnessTimeout:
+        return 'timeout', traceback.format_exc()
+    except Exception as e:
+        return 'crash: %r' % (e,), traceback.format_exc()
+    finally:
+        signal.setitimer(signal.ITIMER_REAL, 0)
+        signal.signal(signal.SIGALRM, old_handler)
+
+
+def harness_child(prop, cfg, tier, seed, out):
+    """the correspondence pass alone, in this (variant) interpreter; result written to `out` as JSON"""
+    exe = os.environ['PV_CHILD_EXE']
+    ctx = Ctx(prop, tier, seed, Driver(exe))
+    harness = importlib.import_module('tools.harness.' + cfg['harness'])
+    kind, tb = _run_harness(ctx, harness, tier)
+    fails = []
+    per_key = {}
+    for r in ctx.failures:
+        n = per_key.get(r['key'], 0)
+        per_key[r['key']] = n + 1
+        if n < 40:
+            fails.append(sx.jsonable(r))
+    Path(out).write_text(json.dumps({'optimize': sys.flags.optimize, 'n_eval': ctx.n_eval, 'n_in': ctx.n_in,
+                                     'failures': fails, 'failing_by_key': per_key,
+                                     'error': kind, 'traceback': tb}, default=str))
+    return 0
+
+
+def spawn_mode_child(prop, tier, exe, mode):
+    fd, out = tempfile.mkstemp(prefix='pv-mode-%s-' % mode, suffix='.json')
+    os.close(fd)
+    flags = {'O': ['-O']}[mode]
+    env = dict(os.environ, PV_CHILD_EXE=str(exe), PYTHONOPTIMIZE='1' if mode == 'O' else '')
+    p = subprocess.Popen([sys.executable] + flags + [str(VERIF / 'check'), prop, '--tier', tier, '--mode-child', out],
+                         env=env, stdout=subprocess.DEVNULL, stderr=subprocess.PIPE, text=True,
+                         preexec_fn=_die_with_parent)
+    return p, out
+
+
+def collect_mode_child(p, out, tier):
+    try:
+        _, err = p.communicate(timeout=HARNESS_BUDGET_S[tier] + 120)
+    except subprocess.TimeoutExpired:
+        p.kill()
+        p.communicate()
+        err = 'child did not finish'
+    try:
+        data = json.loads(Path(out).read_text())
+    except Exception:
+        data = {'error': 'no result from the child (rc=%s): %s' % (p.returncode, (err or '')[-1500:]),
+                'failures': [], 'n_eval': 0, 'n_in': 0, 'failing_by_key': {}}
+    finally:
+        try:
+            os.unlink(out)
+        except OSError:
+            pass
+    return data
+
+
+
 def main_check(prop, cfg, tier, seed, replay=None):
     """With VERIF_REPO pointing at a scratch copy (mutation testing) the whole check runs on a private
     copy of coq/ and ocaml/ so that regenerated Gen files and rebuilt drivers never disturb /verif."""
@@ -551,36 +636,40 @@ def _main_check(prop, cfg, tier, seed, replay=None):
     ctx.keep_all = bool(replay)
     harness = importlib.import_module('tools.harness.' + cfg['harness'])
     harness_error = None
+    mode_children = []
     if exe is not None:
-        import signal
-
-        def _on_alarm(signum, frame):
-            raise HarnessTimeout()
-        old_handler = signal.signal(signal.SIGALRM, _on_alarm)
-        signal.setitimer(signal.ITIMER_REAL, HARNESS_BUDGET_S[tier])
-        try:
-            if replay:
-                data = json.loads(Path(replay).read_text())
-                cases = [(data['kind'], sx.unjson(data['abstract']))] if 'kind' in data else []
-            else:
-                cases = list(harness.corpus(ctx)) if hasattr(harness, 'corpus') else []
-                cases += list(harness.gen(ctx))
-            harness.evaluate(ctx, cases)
-        except HarnessTimeout:
-            import traceback
-            harness_error = traceback.format_exc()
+        if not replay:
+            for m in MODES:
+                mode_children.append((m,) + spawn_mode_child(prop, tier, exe, m))
+        replay_cases = None
+        if replay:
+            data = json.loads(Path(replay).read_text())
+            replay_cases = [(data['kind'], sx.unjson(data['abstract']))] if 'kind' in data else []
+        kind_err, harness_error = _run_harness(ctx, harness, tier, replay_cases)
+        if kind_err == 'timeout':
             log('harness timeout:\n' + harness_error[-3000:])
             proof_broken.append('the correspondence did not finish within %d s (%d cases evaluated): the '
                                 'implementation or the model does not terminate in reasonable time on a generated '
                                 'input; the stack at the time is in harness_error' % (HARNESS_BUDGET_S[tier], ctx.n_eval))
-        except Exception as e:  # a crash of the harness is a broken check, reported as such
-            import traceback
-            harness_error = traceback.format_exc()
+        elif kind_err:
             log('harness error:\n' + harness_error)
-            proof_broken.append('correspondence harness crashed: %r' % (e,))
-        finally:
-            signal.setitimer(signal.ITIMER_REAL, 0)
-            signal.signal(signal.SIGALRM, old_handler)
+            proof_broken.append('correspondence harness crashed: ' + kind_err[7:])
+    mode_report = {}
+    for m, p, out in mode_children:
+        data = collect_mode_child(p, out, tier)
+        name = {'O': 'python -O'}[m]
+        mode_report[name] = {'evaluations': data.get('n_eval', 0), 'in_domain': data.get('n_in', 0),
+                             'failing_by_key': data.get('failing_by_key', {}), 'error': data.get('error')}
+        for r in data.get('failures', []):
+            r = dict(r, mode=m, abstract=sx.unjson(r['abstract']))
+            ctx.failures.append(r)
+        if data.get('error'):
+            log('mode %s: %s\n%s' % (name, data['error'], (data.get('traceback') or '')[-2000:]))
+            if harness_error is None:
+                harness_error = data.get('traceback')
+            proof_broken.append('the correspondence under %s did not complete (%s)' % (name, data['error']))
+    if mode_report:
+        ev_extra['modes'] = mode_report
 
     if replay:
         for r in ctx.results:
